@@ -70,7 +70,10 @@ Connected(c) == ReachIn(c.E, {1}) = Pos(c)
 (* ---- reading the definitions: a force field object is what the files leave behind *)
 \* L.b  block name -> block index (a later definition of the same name replaces the earlier one)
 \* L.l  link indices in the order read;  L.ver  link index -> versions of its interactions;  L.m  modification name -> index
-L0 == [b |-> <<>>, l |-> <<>>, ver |-> <<>>, m |-> <<>>]
+\* L.macs / L.sub exist for the deviation defineLeak only (intended: parameter macros `#define name value` of a polyply .itp input are NOT
+\* interpreted - the token is handed through to the written .itp, grompp resolves it): L.macs = macro table name -> value the parser holds,
+\* L.sub = block index -> the table its parameters were substituted with
+L0 == [b |-> <<>>, l |-> <<>>, ver |-> <<>>, m |-> <<>>, macs |-> <<>>, sub |-> <<>>]
 DeclVers(l) == [q \in DOMAIN l.inters |-> l.inters[q].ver]
 AddDef(F, L, d) ==
   IF d.t = "b" THEN [L EXCEPT !.b = (F.blocks[d.i].name :> d.i) @@ @]
@@ -81,13 +84,31 @@ RetagVers(xs) == [q \in DOMAIN xs |-> Cardinality({m \in DOMAIN xs : m >= q /\ x
 RECURSIVE LoadDefs(_, _, _, _)
 LoadDefs(F, L, ds, k) == IF k > Len(ds) THEN L ELSE LoadDefs(F, AddDef(F, L, ds[k]), ds, k + 1)
 \* glob = deviation itpGlobal: finishing a polyply .itp file re-tags the versions of EVERY link read so far
-RECURSIVE LoadFiles(_, _, _, _, _)
-LoadFiles(F, L, fs, k, glob) ==
+\* the parameter macros a file defines (they come with its block definitions: `#define` lines of a polyply .itp), later lines win
+BlockMacros(b) == IF "macros" \in DOMAIN b THEN b.macros ELSE <<>>
+RECURSIVE MacFold(_, _, _)
+MacFold(tab, ms, k) == IF k > Len(ms) THEN tab ELSE MacFold((ms[k].name :> ms[k].val) @@ tab, ms, k + 1)
+FileBlocks(f) == {f.defs[q].i : q \in {r \in DOMAIN f.defs : f.defs[r].t = "b"}}
+FileMacros(F, f, tab) == LET ds == SelectSeq(f.defs, LAMBDA d : d.t = "b")
+                             RECURSIVE go(_, _)
+                             go(t, k) == IF k > Len(ds) THEN t ELSE go(MacFold(t, BlockMacros(F.blocks[ds[k].i]), 1), k + 1)
+                         IN go(tab, 1)
+\* leak = deviation defineLeak (seed7-C13-2): the macros of every polyply .itp are kept in ONE table for the whole process (L.macs starts from what
+\* earlier files / earlier calls left there) and substituted into the parameters of every block a polyply .itp defines
+RECURSIVE LoadFiles(_, _, _, _, _, _)
+LoadFiles(F, L, fs, k, glob, leak) ==
   IF k > Len(fs) THEN L
   ELSE LET L1 == LoadDefs(F, L, fs[k].defs, 1)
            L2 == IF glob /\ fs[k].syn = "itp" THEN [L1 EXCEPT !.ver = [i \in DOMAIN L1.ver |-> RetagVers(F.links[i].inters)]] ELSE L1
-       IN LoadFiles(F, L2, fs, k + 1, glob)
-Loaded(F, fs, glob) == LoadFiles(F, L0, fs, 1, glob)
+           L3 == IF leak /\ fs[k].syn = "itp"
+                 THEN LET tab == FileMacros(F, fs[k], L2.macs) IN [L2 EXCEPT !.macs = tab, !.sub = [i \in FileBlocks(fs[k]) |-> tab] @@ @]
+                 ELSE L2
+       IN LoadFiles(F, L3, fs, k + 1, glob, leak)
+\* mac0: the macro table the parser class holds when the call starts (<<>> in a new process)
+LoadedM(F, fs, glob, leak, mac0) == LoadFiles(F, [L0 EXCEPT !.macs = mac0], fs, 1, glob, leak)
+Loaded(F, fs, glob) == LoadedM(F, fs, glob, FALSE, <<>>)
+\* the parameter of a block interaction as the loaded force field holds it
+ParOf(L, bi, par) == IF bi \in DOMAIN L.sub /\ par \in DOMAIN L.sub[bi] THEN L.sub[bi][par] ELSE par
 
 (* ---- which definitions may NOT be reordered: they define the same thing, "defined last wins" (DESIGN 4.13, domain) *)
 NormAt(l, x) == LET os == {l.orders[l.atoms[x.at[j]].oi] : j \in DOMAIN x.at}
@@ -151,7 +172,9 @@ ErrOut(e) == [err |-> e, atoms |-> <<>>, ints |-> <<>>, nrexcl |-> 0, cites |-> 
 \* the molecule made of block copies: residues in residue-id order, a multi-residue block covers consecutive residues of its fragment
 PBase(c, L, bx) ==
   LET F == FFof(c)
-      blk == TLCEval([p \in Pos(c) |-> F.blocks[L.b[BlkName(c, p)]]])
+      blk == TLCEval([p \in Pos(c) |-> LET bi == L.b[BlkName(c, p)]
+                                             b0 == F.blocks[bi]
+                                         IN [b0 EXCEPT !.inters = [q \in DOMAIN b0.inters |-> [b0.inters[q] EXCEPT !.par = ParOf(L, bi, b0.inters[q].par)]]]])
       lay == TLCEval([p \in Pos(c) |-> IF c.fi[p] = "" THEN [first |-> p, loc |-> 1]
                         ELSE LET comp == CompOf(c, c.E, p)
                                  nres == NRes(blk[p])
@@ -187,8 +210,18 @@ ResMatches(c, l) == {phi \in [1..NOrd(l) -> Pos(c)] :
                        /\ \A i \in 1..NOrd(l) : c.rn[phi[i]] \in OrdRn(l, i)}
 \* relative orders: integers are residue-id offsets (0, +1, -1 ...); 100 + k stands for k stars ("some other residue", vermouth's `*` prefix):
 \* a star order only asks for a residue different from the others (phi is injective), so both orientations of a two-residue `*` link match
-IsStar(o) == o >= 100
-OrderOK(c, l, phi) == \A i, j \in 1..NOrd(l) : (IsStar(l.orders[i]) \/ IsStar(l.orders[j])) \/ Resid(c, phi[j]) - Resid(c, phi[i]) = l.orders[j] - l.orders[i]
+\* 200 + k stands for k `>` ("a residue with a LARGER residue id than the reference residue 0"; `>>` larger than `>`), 300 + k for k `<` (smaller):
+\* vermouth's match_order compares these among themselves and with the reference residue (order 0) by the SIGN of the residue-id difference only;
+\* against an integer offset n # 0 or a star nothing is required
+IsStar(o) == o >= 100 /\ o < 200
+IsDir(o) == o >= 200
+DirRank(o) == IF o >= 300 THEN 300 - o ELSE IF o >= 200 THEN o - 200 ELSE 0
+OrderPairOK(c, oi, oj, pi, pj) ==
+  IF IsStar(oi) \/ IsStar(oj) THEN TRUE
+  ELSE IF IsDir(oi) \/ IsDir(oj)
+       THEN ((IsDir(oi) \/ oi = 0) /\ (IsDir(oj) \/ oj = 0)) => ((DirRank(oi) < DirRank(oj)) <=> (Resid(c, pi) < Resid(c, pj)))
+       ELSE Resid(c, pj) - Resid(c, pi) = oj - oi
+OrderOK(c, l, phi) == \A i, j \in 1..NOrd(l) : i # j => OrderPairOK(c, l.orders[i], l.orders[j], phi[i], phi[j])
 \* A link atom may ask for an atom type (ty).  Link atoms are matched against the residue FRAGMENTS, which keep the block's ORIGINAL atom
 \* attributes for the whole run: what another link (or an earlier match) has replaced in the molecule is not seen (ty0 = the block's type;
 \* ty = the current type in the molecule).  Hence a replacing link and a link selecting on the replaced attribute commute (they are not in MustKeep).
